@@ -277,7 +277,8 @@ static bool siteFilter(const char* s) {
   // pool-level points only: rings / queues / arenas are atomic units; the task-set points of the
   // C02/C04/C05 component (prefix Ts) pass through, so that a pop and the body it starts are one step
   return (s[0] == 'T' && s[1] == 'p') || (s[0] == 'P' && s[1] == 'w') || (s[0] == 'E' && s[1] == 'w') ||
-      (s[0] == 'F' && s[1] == 'u') || (s[0] == 'D' && s[1] == 'r');
+      (s[0] == 'F' && s[1] == 'u') || (s[0] == 'D' && s[1] == 'r') ||
+      (s[0] == 'I' && s[1] == 'n' && s[2] == 'l'); // Inl* notes (inline depth)
 }
 
 static void project(World* w, Json& j) {
